@@ -262,7 +262,10 @@ def gen_program(rng, n_ops=40, stress=None):
             else:
                 tgt = r_cls()
             n = 1 if how in ("classImplementsFirst", "noLongerProvides") else rng.choice([0, 1, 1, 2])
-            sp = [r_iface() if rng.random() < 0.9 else r_anyspec() for _ in range(n)]
+            # declaring class specifications / instance declarations can close a cycle in the
+            # specification graph (unbounded recursion in both implementations): interfaces and
+            # foreign values only
+            sp = [r_iface() if rng.random() < 0.9 else ["F", rng.randrange(N_FOREIGN)] for _ in range(n)]
             return [["decl", how, tgt, sp]]
         if r < 0.40:      # specification queries
             q = rng.random()
